@@ -50,6 +50,10 @@ pub(crate) struct ReCompiler {
     has_back_references: bool,
 
     re_flags: ReFlags,
+
+    // verification hook: compile without any optimization
+    #[cfg(regexml_verif)]
+    pub(crate) unoptimized: bool,
 }
 
 /// Regular expression error
@@ -97,6 +101,8 @@ impl ReCompiler {
             captures: HashSet::new(),
             has_back_references: false,
             re_flags,
+            #[cfg(regexml_verif)]
+            unoptimized: false,
         }
     }
 
@@ -1008,6 +1014,26 @@ impl ReCompiler {
                     return Err(Error::syntax("Unmatched close paren"));
                 }
                 return Err(Error::syntax("Unexpected input remains"));
+            }
+            #[cfg(regexml_verif)]
+            if self.unoptimized {
+                // verification hook: the operator tree exactly as parsed, and
+                // none of the search shortcuts that ReProgram::new derives
+                let mut program = ReProgram::new(
+                    self.pattern,
+                    operation,
+                    Some(self.capturing_open_paren_count),
+                    self.re_flags.clone(),
+                );
+                program.prefix = None;
+                program.initial_char_class = None;
+                program.preconditions.clear();
+                program.minimum_length = 0;
+                program.optimization_flags = 0;
+                if self.has_back_references {
+                    program.optimization_flags |= OPT_HASBACKREFS;
+                }
+                return Ok(program);
             }
             let operation = operation.optimize(&self.re_flags);
 
